@@ -8,9 +8,8 @@
    min_cycle_basis, min_odd_cycle, has_cycle_space_dimension), SvaSpec.v (pairing, search_min …).
    odd_in sg D  :=  an odd number of the edges of D belongs to sg.
 
-   NOT proved (absent, see the report): completeness of basis_checkb / mcb_checkb (a rejected family is
-   not a (minimum) basis) — it needs the invariance of dimension and the mid-run invariants of the scheme;
-   it is only tested (against a brute-force oracle). *)
+   Completeness of basis_checkb / mcb_checkb (a rejected family is not a (minimum) basis) and the invariance of
+   dimension are proved in RefProofs6.v and stated in Properties_Ref2.v. *)
 From Coq Require Import List Arith Bool ZArith.
 From Parmcb Require Import GraphModel GF2Model GraphSpec McbSpec ForestModel SvaModel SvaSpec SvaProofs
   RefModel RefProofs1 RefProofs2 RefProofs3 RefProofs4 RefProofs5.
